@@ -114,6 +114,17 @@ CLAIMS['C18'] = dict(
          'by provenance incl. passed-out arms; the 15 written tag lines are read back verbatim by parse_board for values over the alphabet.',
     ref='4/C18')
 
+CLAIMS['C19'] = dict(
+    technique='static analysis: builder/parser agreement by partial evaluation of both ends\' code (call-site wiring included) over the complete finite message domains with scripted message endpoints; structural recv-size rule + end-of-stream propagation through the receive loop at every stream position',
+    text='Hands (105-hand covering family x 4 seats, own and dummy), 38 calls x 4 seats x 5 letter cases x 5 alert spellings through the server\'s own '
+         'normalisation statements and as relayed to the other clients, 52 cards x 4 seats x 2 notations x letter cases, board headers (7 numbers x 4 dealers '
+         'x 4 vulnerabilities), the connection dialogue (connect line, seated reply, Teams, ready lines; 4 seats x 15 team names x letter cases) with '
+         'Client._connect and PlayerThread._connect evaluated against each other, lead prompts, start/end literals: each text built by one end is '
+         'read by the other end\'s code as the original value. Framing: CR LF appended = CR LF consumed, every recv asks for 1 byte (else every '
+         'chunking is enumerated), end-of-stream at each of the 13 positions of a two-message stream ends receive_message with an exception. '
+         'Not decided: kernel TCP behaviour; team names containing a double quote (excluded by the property).',
+    ref='4/C19')
+
 PENDING_REASON = 'check under construction in this session (static rules designed in DESIGN.md section 4, not yet registered)'
 
 
